@@ -746,3 +746,76 @@ func gAnyMsg(rt *rapid.T, label string, o anyOpts) *AMsg {
 	p.Body = gBody(rt, label+".body", o.MaxBody)
 	return assemble(rt, label+".layout", p)
 }
+
+// ---- restyling (C17): same abstract message, other spelling and list layout --
+
+var extCompactPairs = map[string]string{"content-type": "c", "supported": "k", "subject": "s", "contact": "m", "event": "o", "refer-to": "r", "allow-events": "u", "accept-contact": "a", "referred-by": "b", "content-encoding": "e",
+	"c": "Content-Type", "k": "Supported", "s": "Subject", "m": "Contact", "o": "Event", "r": "Refer-To", "u": "Allow-Events", "a": "Accept-Contact", "b": "Referred-By", "e": "Content-Encoding"}
+
+func gRespellExt(rt *rapid.T, label, name string) string {
+	switch rapid.IntRange(0, 4).Draw(rt, label+".how") {
+	case 0:
+		return strings.ToUpper(name)
+	case 1:
+		return strings.ToLower(name)
+	case 2:
+		if alt, ok := extCompactPairs[strings.ToLower(name)]; ok {
+			return alt
+		}
+		return name
+	case 3:
+		b := []byte(name)
+		for i := range b {
+			if rapid.Bool().Draw(rt, label+".flip") {
+				if b[i] >= 'a' && b[i] <= 'z' {
+					b[i] -= 32
+				} else if b[i] >= 'A' && b[i] <= 'Z' {
+					b[i] += 32
+				}
+			}
+		}
+		return string(b)
+	}
+	return name
+}
+
+// restyle returns a twin of m: every header name independently respelled
+// (canonical, compact where the RFC defines one, upper, lower, random case),
+// every run of adjacent Via / Route / Record-Route lines re-laid-out (joined,
+// split, partially joined). Values, order and everything else are the same.
+func restyle(rt *rapid.T, label string, m *AMsg) *AMsg {
+	t := m.Clone()
+	var out []AHdr
+	for i := 0; i < len(t.Hdrs); {
+		h := t.Hdrs[i]
+		if (h.Kind == hVia || h.Kind == hRoute || h.Kind == hRR) && h.Raw == "" {
+			j := i
+			var vias []AVia
+			var nas []ANameAddr
+			for j < len(t.Hdrs) && t.Hdrs[j].Kind == h.Kind && t.Hdrs[j].Raw == "" {
+				vias = append(vias, t.Hdrs[j].Vias...)
+				nas = append(nas, t.Hdrs[j].NAs...)
+				j++
+			}
+			if h.Kind == hVia {
+				out = append(out, gGroupLinesVia(rt, fmt.Sprintf("%s.v%d", label, i), vias)...)
+			} else {
+				out = append(out, gGroupLinesNA(rt, fmt.Sprintf("%s.n%d", label, i), h.Kind, nas)...)
+			}
+			i = j
+			continue
+		}
+		if sp, ok := hSpellings[h.Kind]; ok {
+			h.Name = sp[rapid.IntRange(0, len(sp)-1).Draw(rt, fmt.Sprintf("%s.s%d", label, i))]
+		} else if h.Kind == hExt {
+			h.Name = gRespellExt(rt, fmt.Sprintf("%s.e%d", label, i), h.Name)
+			if interpretedNames[strings.ToLower(h.Name)] {
+				h.Name = t.Hdrs[i].Name
+			}
+		}
+		out = append(out, h)
+		i++
+	}
+	t.Hdrs = out
+	return t
+}
